@@ -1,6 +1,10 @@
 package standard
 
-import "github.com/attestantio/go-eth2-client/spec/phase0"
+import (
+	"context"
+
+	"github.com/attestantio/go-eth2-client/spec/phase0"
+)
 
 // Read-only probes for the verification harness (overlay only).
 
@@ -33,4 +37,10 @@ func (s *Service) VerifC20SubscriptionInfoEpochs() []phase0.Epoch {
 		out = append(out, k)
 	}
 	return out
+}
+
+// VerifScheduleAttestations runs the controller's own scheduling of an epoch's attestations (as the epoch
+// preparation job and the duty refresh do).
+func (s *Service) VerifScheduleAttestations(ctx context.Context, epoch phase0.Epoch, validatorIndices []phase0.ValidatorIndex, notCurrentSlot bool) {
+	s.scheduleAttestations(ctx, epoch, validatorIndices, notCurrentSlot)
 }
